@@ -140,6 +140,78 @@ RedeclCases ==
               RedeclWant(k)) : k \in RedeclKinds}
   \cup {Case("redeclare-mod-" \o k, <<Set("m", ModE(RedeclBody(k))), Field(V("m"), "r")>>, RedeclWant(k)) : k \in RedeclKinds}
 
+\* every kind of expression / statement with CAPTURED operands inside an inner function: the names x (int 2), a (array
+\* [5, 6, 7]), t (tuple), s (struct), c (cell), b (bool), u (int|string holding an int), g (function), are parameters of the
+\* function that makes the closure; the closure is then called twice (each call sees the same captured values)
+CapParams == <<P("x", WInt), P("a", WArr(WInt)), P("t", WTup(<<WInt, WInt>>)), P("s", WStruct(<< <<"f", WInt>> >>)), P("c", WMut(WInt)),
+               P("b", WBool), P("u", WMulti(<<WInt, WStr>>)), P("g", WFn(<<WInt>>, WInt))>>
+CapArgs == <<H(2), Hide(WArr(WInt), ArrE(<<I(5), I(6), I(7)>>)), Hide(WTup(<<WInt, WInt>>), TupE(<<I(8), I(9)>>)),
+             StructE(<< <<"f", H(4)>> >>), MutE(WInt, I(1)), Hide(WBool, B(TRUE)), Hide(WMulti(<<WInt, WStr>>), I(3)),
+             FnE(<<P("q", WInt)>>, WInt, <<Ret(Bin("*", V("q"), I(10)))>>)>>
+GtOne == FnE(<<P("q", WInt)>>, WBool, <<Ret(Bin(">", V("q"), V("x")))>>)        \* a predicate that itself captures x
+CapForm(k) ==
+  CASE k = "array" -> <<Ret(At(ArrE(<<V("x"), I(1)>>), I(0)))>>
+    [] k = "repeat-value" -> <<Ret(At(RepE(V("x"), I(2)), I(1)))>>
+    [] k = "repeat-length" -> <<Ret(Bin("+", At(RepE(I(4), V("x")), I(1)), V("x")))>>
+    [] k = "bin" -> <<Ret(Bin("-", Bin("*", V("x"), I(7)), V("x")))>>
+    [] k = "neg-not" -> <<Ret(If(NotE(V("b")), NegE(V("x")), NegE(NegE(V("x")))))>>
+    [] k = "and-or" -> <<Ret(If(OrE(AndE(V("b"), Bin(">", V("x"), I(5))), NotE(V("b"))), I(1), I(0)))>>
+    [] k = "field" -> <<Ret(Field(V("s"), "f"))>>
+    [] k = "tuple-access" -> <<Ret(Bin("-", TupAt(V("t"), 1), TupAt(V("t"), 0)))>>
+    [] k = "tuple" -> <<Ret(TupAt(TupE(<<I(0), V("x"), I(0)>>), 1))>>
+    [] k = "struct" -> <<Ret(Field(StructE(<< <<"k", V("x")>> >>), "k"))>>
+    [] k = "index" -> <<Ret(At(V("a"), V("x")))>>
+    [] k = "slice-bounds" -> <<Ret(At(Slice(V("a"), V("x"), NoneV, NoneV), I(0)))>>
+    [] k = "slice-sequence" -> <<Ret(At(Slice(V("a"), I(1), I(3), NoneV), I(1)))>>
+    [] k = "slice-step" -> <<Ret(At(Slice(V("a"), NoneV, NoneV, V("x")), I(1)))>>
+    [] k = "mut" -> <<Set("m", MutE(WInt, V("x"))), Asg("+=", V("m"), I(1)), Ret(Deref(V("m")))>>
+    [] k = "deref-assign" -> <<Asg("+=", V("c"), V("x")), Ret(Deref(V("c")))>>
+    [] k = "call" -> <<Ret(CallE(V("g"), <<V("x")>>))>>
+    [] k = "if" -> <<If1(Bin("==", V("x"), I(2)), Ret(I(1))), Ret(I(0))>>
+    [] k = "ifset" -> <<IfSet("n", WInt, V("u"), Ret(Bin("+", V("n"), V("x"))), NoneV), Ret(I(0))>>
+    [] k = "match" -> <<Ret(Match(V("x"), <<ArmVal(<<I(1)>>, I(10)), ArmVal(<<TupAt(V("t"), 0), I(2)>>, I(20)), ArmOther(I(30))>>))>>
+    [] k = "match-type" -> <<Ret(Match(V("u"), <<ArmTy("n", WStr, I(1)), ArmTy("n", WInt, Bin("+", V("n"), V("x")))>>))>>
+    [] k = "block" -> <<Set("r", Block(<<Set("y", Bin("+", V("x"), I(1))), Bin("*", V("y"), I(2))>>)), Ret(V("r"))>>
+    [] k = "destruct" -> <<Destruct(<<"p", "q">>, V("t")), Ret(Bin("+", V("p"), Bin("*", V("q"), V("x"))))>>
+    [] k = "while" -> <<Set("k", MutE(WInt, I(0))), While(Bin("<", Deref(V("k")), V("x")), Block(<<Asg("+=", V("k"), I(1))>>)), Ret(Deref(V("k")))>>
+    [] k = "for" -> <<Set("k", MutE(WInt, I(0))), For("e", IterE(V("a")), Block(<<Asg("+=", V("k"), Bin("*", V("e"), V("x")))>>)), Ret(Deref(V("k")))>>
+    [] k = "loop" -> <<Set("k", MutE(WInt, I(0))), Loop(Block(<<Asg("+=", V("k"), I(1)), If1(Bin(">", Deref(V("k")), V("x")), Break)>>)), Ret(Deref(V("k")))>>
+    [] k = "iter-collect" -> <<Ret(At(CollectE(IterE(V("a"))), V("x")))>>
+    [] k = "map" -> <<Ret(RedE("$+", "int", MapE(IterE(V("a")), V("g"))))>>
+    [] k = "filter" -> <<Ret(RedE("$+", "int", FilterE(IterE(ArrE(<<I(1), I(2), I(3), V("x")>>)), GtOne)))>>
+    [] k = "type-filter" -> <<Ret(RedE("$+", "int", TFilterE(IterE(ArrE(<<V("u"), V("x")>>)), WInt)))>>
+    [] k = "partition" -> <<Ret(At(TupAt(PartE(IterE(V("a")), FnE(<<P("q", WInt)>>, WBool, <<Ret(Bin(">", V("q"), Bin("+", V("x"), I(3))))>>)), 0), I(0)))>>
+    [] k = "reduce" -> <<Ret(ReduceE(IterE(V("a")), V("x"), FnE(<<P("acc", WInt), P("q", WInt)>>, WInt, <<Ret(Bin("+", V("acc"), V("q")))>>)))>>
+    [] k = "sum-product" -> <<Ret(Bin("+", RedE("$+", "int", IterE(V("a"))), RedE("$*", "int", IterE(ArrE(<<V("x"), I(3)>>)))))>>
+    [] k = "bool-reduce" -> <<Ret(If(RedE("$&&", "bool", IterE(ArrE(<<V("b"), B(TRUE)>>))), I(1), I(0)))>>
+    [] k = "fn-literal" -> <<Set("h", FnE(<<P("q", WInt)>>, WInt, <<Ret(Bin("+", V("q"), V("x")))>>)), Ret(CallE(V("h"), <<I(40)>>))>>
+    [] k = "fn-decl" -> <<FnDecl("h", <<P("q", WInt)>>, WInt, <<Ret(Bin("+", V("q"), V("x")))>>), Ret(CallE(V("h"), <<I(40)>>))>>
+    [] k = "mod" -> <<Set("m", ModE(<<Set("y", Bin("+", V("x"), I(1)))>>)), Ret(Field(V("m"), "y"))>>
+    [] k = "whileset" -> <<Set("k", MutE(WInt, I(0))),
+                           FnDecl("nx", <<>>, WMulti(<<WInt, WVoid>>), <<Asg("+=", V("k"), I(1)), If1(Bin(">", Deref(V("k")), V("x")), Ret0), Ret(Deref(V("k")))>>),
+                           Set("acc", MutE(WInt, I(0))), WhileSet("n", WInt, CallE(V("nx"), <<>>), Block(<<Asg("+=", V("acc"), V("n"))>>)), Ret(Deref(V("acc")))>>
+CapWant(k) ==
+  CASE k \in {"array", "repeat-value", "tuple", "struct", "while"} -> 2
+    [] k = "repeat-length" -> 6 [] k = "bin" -> 12 [] k = "neg-not" -> 2 [] k = "and-or" -> 0 [] k = "field" -> 4
+    [] k = "tuple-access" -> 1 [] k = "index" -> 7 [] k = "slice-bounds" -> 7 [] k = "slice-sequence" -> 7 [] k = "slice-step" -> 7
+    [] k = "mut" -> 3 [] k = "call" -> 20 [] k = "if" -> 1 [] k = "ifset" -> 5 [] k = "match" -> 20 [] k = "match-type" -> 5
+    [] k = "block" -> 6 [] k = "destruct" -> 26 [] k = "for" -> 36 [] k = "loop" -> 3 [] k = "iter-collect" -> 7 [] k = "map" -> 180
+    [] k = "filter" -> 3 [] k = "type-filter" -> 5 [] k = "partition" -> 6 [] k = "reduce" -> 20 [] k = "sum-product" -> 24
+    [] k = "bool-reduce" -> 1 [] k = "fn-literal" -> 42 [] k = "fn-decl" -> 42 [] k = "mod" -> 3 [] k = "whileset" -> 3
+CapKinds == {"array", "repeat-value", "repeat-length", "bin", "neg-not", "and-or", "field", "tuple-access", "tuple", "struct", "index",
+             "slice-bounds", "slice-sequence", "slice-step", "mut", "call", "if", "ifset", "match", "match-type", "block", "destruct",
+             "while", "for", "loop", "iter-collect", "map", "filter", "type-filter", "partition", "reduce", "sum-product", "bool-reduce",
+             "fn-literal", "fn-decl", "mod", "whileset"}
+CapturedCases ==
+  {Case("captured-" \o k,
+        <<FnDecl("mk", CapParams, WFn(<<>>, WInt), <<Ret(FnE(<<>>, WInt, CapForm(k)))>>),
+          Set("clo", CallE(V("mk"), CapArgs)), TupE(<<CallE(V("clo"), <<>>), CallE(V("clo"), <<>>)>>)>>,
+        TupV(<<IntV(CapWant(k)), IntV(CapWant(k))>>)) : k \in CapKinds}
+  \* the closure writes a captured cell: the two calls see each other's writes
+  \cup {Case("captured-deref-assign",
+        <<FnDecl("mk", CapParams, WFn(<<>>, WInt), <<Ret(FnE(<<>>, WInt, CapForm("deref-assign")))>>),
+          Set("clo", CallE(V("mk"), CapArgs)), TupE(<<CallE(V("clo"), <<>>), CallE(V("clo"), <<>>)>>)>>, T2(3, 5))}
+
 \* ---------------------------------------------------------------- (B) capture
 GetX == FnE(<<>>, WInt, <<Ret(V("x"))>>)
 CaptureCases == {
@@ -317,7 +389,7 @@ ModCases == {
 }
 
 \* int / bool / struct values cannot share one TLC set: keep the suites in separate sequences
-CaseSeq == SetToSeq(ShadowCases) \o SetToSeq(SoloCases) \o SetToSeq(RedeclCases) \o SetToSeq(CaptureCases) \o SetToSeq(RecCases) \o SetToSeq(NoisyCases) \o SetToSeq(ModCases)
+CaseSeq == SetToSeq(ShadowCases) \o SetToSeq(SoloCases) \o SetToSeq(RedeclCases) \o SetToSeq(CapturedCases) \o SetToSeq(CaptureCases) \o SetToSeq(RecCases) \o SetToSeq(NoisyCases) \o SetToSeq(ModCases)
 N == Len(CaseSeq)
 Fuel == 3000
 Out(i) == Outcome(Run(CaseSeq[i].prog, Fuel))
